@@ -940,6 +940,76 @@ def _export_succs(node):
     return out
 
 
+def _desc_succs(desc, n):
+    """successors of node n in the DESCRIBED graph (constructor values, set / pre actions, init tasks of submissions)"""
+    out = []
+
+    def refs(v):
+        if v.get("t") in ("ref", "out"):
+            out.append(v["n"])
+        elif v.get("t") in ("list",):
+            for x in v["v"]:
+                refs(x)
+        elif v.get("t") == "dict":
+            for _, x in v["v"]:
+                refs(x)
+        elif v.get("t") == "tagged":
+            refs(v["v"])
+
+    for _, v in desc["nodes"][n]["kw"]:
+        refs(v)
+    for a in desc["actions"]:
+        if a.get("n") != n:
+            continue
+        if a["a"] == "set":
+            refs(a["v"])
+        elif a["a"] == "pre":
+            out.extend(a["ids"])
+        elif a["a"] == "submit":
+            out.extend(a.get("init", []))
+    return out
+
+
+def remarked(desc):
+    """A configuration that was already identified as part of a submitted / sealed graph is marked as the output of a
+    task afterwards (mark_output changes its identity in place): a task of class TaskSelf marks its parameter `c`
+    while `c` is also reachable from ANOTHER submitted or sealed root (e.g. two such tasks share `c`), or while `c` is
+    itself the output of a submitted task.  (The plain case - a task marks one of its own parameters that nothing else
+    has identified - was repaired in /repo by 661195f and is no longer a recorded finding.)"""
+    import re as _re
+    nn = len(desc["nodes"])
+    subs = {a["n"] for a in desc["actions"] if a["a"] == "submit"}
+    subs |= {int(m) for m in _re.findall(r'"n": (\d+), "t": "out"', json.dumps(desc, sort_keys=True))}
+    roots = subs | {a["n"] for a in desc["actions"] if a["a"] == "seal"}
+    for s_ in sorted(subs):
+        if s_ >= nn or desc["nodes"][s_]["cls"] not in ("TaskSelf", "TaskSelfG"):
+            continue
+        cvals = [v for k, v in desc["nodes"][s_]["kw"] if k == "c"]
+        cvals += [a["v"] for a in desc["actions"] if a["a"] == "set" and a.get("n") == s_ and a.get("name") == "c"]
+        for v in cvals:
+            if v.get("t") == "out":
+                return True
+            if v.get("t") != "ref":
+                continue
+            k = v["n"]
+            for r in roots:
+                if r == s_ or r >= nn:
+                    continue
+                seen, todo = set(), [r]
+                while todo:
+                    m = todo.pop()
+                    if m in seen or m >= nn or m == s_:
+                        continue
+                    seen.add(m)
+                    todo.extend(_desc_succs(desc, m))
+                if k in seen:
+                    return True
+    return False
+
+
+SELFMARK = ":parameter-marked-by-two-tasks"
+
+
 def selfmark_suffix(desc, pairs, nodes=None):
     """The recorded C12 finding seen through the cache invariant: a submitted task that marks one of its OWN
     parameters as its output (class TaskSelf); identifiers were cached at submission, before the mark.
@@ -949,7 +1019,7 @@ def selfmark_suffix(desc, pairs, nodes=None):
     subs = {a["n"] for a in desc["actions"] if a["a"] == "submit"}
     subs |= {int(m) for m in _re.findall(r'"n": (\d+), "t": "out"', json.dumps(desc, sort_keys=True))}
     selfsub = {n for n in subs if n < len(desc["nodes"]) and desc["nodes"][n]["cls"] in ("TaskSelf", "TaskSelfG")}
-    if not (selfsub and pairs and all(k in (3, 4) for _, k in pairs)):
+    if not (selfsub and pairs and all(k in (3, 4) for _, k in pairs) and remarked(desc)):
         return ""
     if nodes is not None:
         for n, _ in pairs:
@@ -962,4 +1032,4 @@ def selfmark_suffix(desc, pairs, nodes=None):
                 todo.extend(_export_succs(nodes[m]))
             if not (seen & selfsub):
                 return ""
-    return ":task-marks-own-parameter"
+    return SELFMARK
